@@ -464,6 +464,8 @@ class Bench:
         self._add("arr", rs.uniform(-4, 4, 1024 * scale), static=True)
         self._add("arr", rs.uniform(-4, 4, 256), static=True)
         self._add("arr", rs.uniform(0.2, 0.8, 1024 * scale), static=True)
+        self._add("arr", rs.rand(64) < 0.35, static=True)           # a thresholded (bool) slot record with damaged symbols
+        self._add("arr", onehot.astype(bool), static=True)
 
     def _bufs(self, o):
         if isinstance(o, np.ndarray):
@@ -808,7 +810,7 @@ class Bench:
             return "skip"
         flat = buf.reshape(-1)
         v = op["val"]
-        flat[op["pos"] % flat.size] = (int(v) % 2) if op["t"] == "bits" else v
+        flat[op["pos"] % flat.size] = (int(v) % 2) if (op["t"] == "bits" or buf.dtype == bool) else v
         self.dig[id(o)] = self._odig(o)
         self._pool_unchanged("scribble", oracle="C14/alias")
         self.rec.fault("scribble")
